@@ -14,7 +14,14 @@ package actions
 //@   ensures [att_pick] gotText(r, languages, uuids.UUID(a.UUID_), "attachments", actionAttachments, translatedAttachments, attLang)
 //@   ensures [qr_pick] gotText(r, languages, uuids.UUID(a.UUID_), "quick_replies", actionQuickReplies, translatedQuickReplies, qrsLang)
 //@   ensures [lang] result1 == (localizedText[0] != "" ? txtLang : (len(translatedAttachments) > 0 ? attLang : (len(translatedQuickReplies) > 0 ? qrsLang : "")))
+// C05: every part of the evaluated message respects its maximum length
+//@   ensures [text_limit] runes(result0.Text) <= r.session.(*engine.session).engine.(*engine.engine).options.MaxTemplateChars
+//@   ensures [attachment_limit] forall k int :: 0 <= k && k < len(result0.Attachments) ==> len(string(result0.Attachments[k])) <= flows.MaxAttachmentLength
+//@   ensures [quick_reply_limit] forall k int :: 0 <= k && k < len(result0.QuickReplies) ==> runes(result0.QuickReplies[k]) <= flows.MaxQuickReplyLength
 //@ loop 1
-//@   invariant true
+//@   invariant runes(evaluatedText) <= r.session.(*engine.session).engine.(*engine.engine).options.MaxTemplateChars
+//@   invariant forall k int :: 0 <= k && k < len(evaluatedAttachments) ==> len(string(evaluatedAttachments[k])) <= flows.MaxAttachmentLength
 //@ loop 2
-//@   invariant true
+//@   invariant runes(evaluatedText) <= r.session.(*engine.session).engine.(*engine.engine).options.MaxTemplateChars
+//@   invariant forall k int :: 0 <= k && k < len(evaluatedAttachments) ==> len(string(evaluatedAttachments[k])) <= flows.MaxAttachmentLength
+//@   invariant forall k int :: 0 <= k && k < len(evaluatedQuickReplies) ==> runes(evaluatedQuickReplies[k]) <= flows.MaxQuickReplyLength
